@@ -1,0 +1,6 @@
+//go:build !verif
+
+package taskctl
+
+// verifGate is a no-op unless built with the "verif" tag (see verif_hooks.go).
+func (s *Scheduler) verifGate() {}
